@@ -226,6 +226,7 @@ pub fn generate(seed: u64, n: usize, thorough: bool, _corpus: Option<&str>) -> V
         cases.push(check_program(&p, tags, if graphs { "random+graphs" } else { "random" }));
     }
     cases.extend(crate::pre_expand::model_cases(&mut r, if thorough { 4000 } else { 400 }));
+    cases.extend(crate::pre_expand::fragment_cases(&mut r, if thorough { 6000 } else { 500 }));
     let _ = Exp::Number(0.0);
     cases
 }
